@@ -320,5 +320,49 @@ def run_case(concepts, case, spec):
             differ(kind.replace('_', '-'), 'number-of-concepts-changed', base['n'], len(lat))
         if nontrivial:
             COL.nontrivial(tkey, kind, j)
+    # 5. the same transforms made the documented way: through Definition objects that are edited ----
+    #    (transposed()/copy() results get a duplicated row, moved rows and columns; the definition they
+    #    were derived from is then turned into a context again and must still give the base lattice)
+    if n <= 12 and m <= 12 and base['n'] <= 120:
+        d0 = call(ctx.definition)
+        t = call(d0.transposed) if d0 is not RAISED else RAISED
+        if t is not RAISED:
+            j = rng.randrange(m)
+            having = [case['objects'][i] for i in range(n) if case['rows'][i] >> j & 1]
+            call(t.add_object, f'dup·T{j}', having)
+            ct2 = call(concepts.Context, *t)
+            lat = common.get_lattice(ct2) if ct2 is not RAISED else RAISED
+            if lat is not RAISED:
+                COL.count('relations_checked_definition_workflow')
+                got = {frozenset(c.intent) for c in lat}
+                if got != extents:
+                    differ('definition-workflow', 'dup-row-of-transposed:family-of-intents-is-not-the-base-family-of-extents',
+                           extents, got)
+                if len(lat) != base['n']:
+                    differ('definition-workflow', 'dup-row-of-transposed:number-of-concepts-changed', base['n'], len(lat))
+            p = call(d0.copy)
+            if p is not RAISED:
+                for _ in range(3):
+                    call(p.move_object, rng.choice(case['objects']), rng.randrange(n))
+                    call(p.move_property, rng.choice(case['properties']), rng.randrange(m))
+                i = rng.randrange(n)
+                call(p.add_object, f'dup·{i}', [case['properties'][k] for k in range(m) if case['rows'][i] >> k & 1])
+                cp = call(concepts.Context, *p)
+                lat = common.get_lattice(cp) if cp is not RAISED else RAISED
+                if lat is not RAISED:
+                    got = {frozenset(c.intent) for c in lat}
+                    if got != intents or len(lat) != base['n']:
+                        differ('definition-workflow', 'moved-and-dup-row-copy:family-of-intents-changed', intents, got)
+            again = call(concepts.Context, *d0)
+            if again is not RAISED:
+                log = obs(again, ('e', base['pairs']))
+                if log is not None:
+                    for key in ('n', 'concepts', 'covers', 'join', 'meet', 'relations'):
+                        if log[key] != base[key]:
+                            differ('definition-workflow', f'source-definition-after-editing-its-derivatives:{key}-changed',
+                                   base[key], log[key])
+                            break
+            if nontrivial:
+                COL.nontrivial(tkey, 'definition-workflow')
     if hash(tkey) % 40 == 0:
-        COL.sample({'table': case, 'n_concepts': base['n'], 'transforms': 'perm x3, transpose, dup rows, dup cols, full col'})
+        COL.sample({'table': case, 'n_concepts': base['n'], 'transforms': 'perm x3, transpose, dup rows, dup cols, full col, definition workflow'})
